@@ -880,6 +880,32 @@ theorem spec_ata_membership_bootstrapD_partial {t : List Cell} {n : Int} {field 
     ∀ i (hi : i < reps.length), Spec.C17.ataMembershipOk t reps[i] i field = true :=
   ataMembershipOk_bootstrapD h hk hs hinj hlay hcol
 
+/-- **spec_ata_membership_bootstrapD** (bridge, no `ColumnsInRatios` hypothesis). `Spec.C17.ataMembershipOk` — the
+verdict `membership` of the driver — is TRUE of every replicate of the model's `bootstrapD` on a sorted triangle whose
+age-to-age slices are well formed (`SliceLayout`, distinct field names) and whose slices are `RegularLags`: (`uniq`) a
+period has at most one cell at a lag; (`noSkip`) no period skips a lag — the row predecessor's lag is the lag preceding
+the cell's lag in `dev_lags()`; (`clipEnds`) in the triangle clipped to two consecutive lags, consecutive same-period
+cells sit at those two lags (a consequence of the layout that is NOT derived here and therefore a named field).
+`ColumnsInRatios` is DERIVED from these (`columnsInRatios_of_regular`: `resampledAtas_member`, `ataTable_entry`,
+`safeAtaDiv_eq_safeDiv`, `mem_ratios`). -/
+theorem spec_ata_membership_bootstrapD {t : List Cell} {n : Int} {field : Option (List String)}
+    {D : Nat → Nat → Draws} {reps : List (List Cell)} (h : bootstrapD t n field D = .ok reps)
+    (hk : kindsConsistent t = true) (hs : t.Pairwise (fun a b => Cell.le a b)) (hinj : ∀ i, TagInjective t i)
+    (hlay : ∀ s ∈ (Triangle.slices t).map (·.2), useAtas s = true →
+      SliceLayout s ∧ ∀ c ∈ s, c.values.keys.Nodup)
+    (hreg : ∀ s ∈ (Triangle.slices t).map (·.2), RegularLags s) :
+    ∀ i (hi : i < reps.length), Spec.C17.ataMembershipOk t reps[i] i field = true :=
+  spec_ata_membership_bootstrapD_partial h hk hs hinj hlay
+    (fun _ hks _ => columnsInRatios_of_regular (hreg _ (List.getElem_mem hks)) _ _)
+
+/-- **safe_ata_division_agrees.** The model's `_safe_ata_division` (`safeAtaDiv`, refusing arrays) and the Spec's
+independent `safeDiv` agree wherever the model succeeds -/
+theorem safe_ata_division_agrees {x y : Option Val} {r : Rat} (h : safeAtaDiv x y = .ok r) :
+    r = Spec.C17.safeDiv x y := safeAtaDiv_eq_safeDiv h
+
+/-- **regular_lags_instance.** `RegularLags` has a closed inhabitant (the 2 × 2 square) -/
+theorem regular_lags_instance : RegularLags exSquare := ex_sq_regular
+
 /-- **dev_lag_strict_mono.** The development lag in months is strictly increasing in the evaluation date (valid
 calendar dates, any period end): within a period, sorting by evaluation date is sorting by lag — the fact behind
 `RowsByLag` -/
@@ -976,6 +1002,20 @@ theorem spec_ata_membership_instance :
   subst this
   simp only [List.getElem_cons_zero, Option.getD_none, ex_sq_fields]
   exact ex_sq_columns
+
+/-- **spec_ata_membership_regular_instance.** `spec_ata_membership_bootstrapD` on the closed instance with every
+hypothesis discharged (`RegularLags exSquare` = `ex_sq_regular`): the bridge is not vacuous. -/
+theorem spec_ata_membership_regular_instance :
+    Spec.C17.ataMembershipOk exSquare (exDev.map (tagCell 0)) 0 none = true := by
+  have hinj : ∀ i, TagInjective exSquare i := by
+    intro i c1 h1 c2 h2 _
+    have hmd : ∀ c ∈ exSquare, c.md = default := by decide +kernel
+    rw [hmd c1 h1, hmd c2 h2]
+  have hmem : ∀ s ∈ (Triangle.slices exSquare).map (·.2), s = exSquare := by
+    intro s hs; rw [ex_sq_slices] at hs; simpa using hs
+  refine spec_ata_membership_bootstrapD bootstrapD_ok_instance ex_sq_kinds ex_sq_sorted hinj ?_ ?_ 0 (by simp)
+  · intro s hs _; rw [hmem s hs]; exact ⟨ex_sq_layout, by decide +kernel⟩
+  · intro s hs; rw [hmem s hs]; exact ex_sq_regular
 
 /-- **bootstrapD_ok_two.** Closed, kernel-checked TWO-slice instance: `bootstrapD` succeeds on `exTwo` (the square
 under two metadata), per-slice draws `exDraws2` (slice 0 swaps its factors, slice 1 keeps them); the replicate is the
